@@ -1034,6 +1034,103 @@ fn free_running(out: &mut Out, rng: &mut Prng, threads: usize, rounds: usize) {
     out.hit_n(&format!("free_running_rounds_{}_threads", threads), rounds as u64);
 }
 
+/// Duplicates that OUTLIVE their source (the scheduled programs drop a duplicate at once): each handle family closes its
+/// own descriptor at its own last drop - not before, not later, whatever was duplicated from it and is still alive - and a
+/// taken descriptor is never closed. Judged from the kernel's view of the descriptor numbers; single-threaded.
+fn dup_outlives_source(out: &mut Out) {
+    let open_devnull = || {
+        let devnull = std::ffi::CString::new("/dev/null").unwrap();
+        let fd = unsafe { libc::open(devnull.as_ptr(), libc::O_RDONLY | libc::O_CLOEXEC) };
+        assert!(fd >= 0);
+        fd
+    };
+    // (a) source dropped first, chain of three
+    {
+        let a = open_devnull();
+        let h = UnixFd::new(a);
+        let c = h.clone();
+        let d = h.dup().expect("dup");
+        let dfd = d.get_raw_fd().expect("duplicate has a descriptor");
+        drop(h);
+        if !fd_open(a) {
+            out.violation("dup-outlives", "the source was closed while a clone of it was alive");
+        }
+        drop(c);
+        if fd_open(a) {
+            out.violation("dup-outlives", "the last handle of the source was dropped (nobody took it) but its descriptor is still open: a live duplicate delays the close");
+            unsafe { libc::close(a) };
+        }
+        if !fd_open(dfd) {
+            out.violation("dup-outlives", "dropping the source closed the duplicate's descriptor");
+        }
+        let d2 = d.dup().expect("dup of a duplicate");
+        let d2fd = d2.get_raw_fd().unwrap();
+        drop(d);
+        if fd_open(dfd) {
+            out.violation("dup-outlives", "the duplicate's last handle was dropped but its descriptor is still open (a duplicate of it is alive)");
+            unsafe { libc::close(dfd) };
+        }
+        if !fd_open(d2fd) {
+            out.violation("dup-outlives", "dropping a duplicate closed the descriptor of ITS duplicate");
+        }
+        drop(d2);
+        if fd_open(d2fd) {
+            out.violation("dup-outlives", "the last duplicate was dropped but its descriptor is still open");
+            unsafe { libc::close(d2fd) };
+        }
+        out.hit("dup_outlives_source");
+    }
+    // (b) duplicate dropped first; (c) the source is taken while the duplicate lives
+    {
+        let a = open_devnull();
+        let h = UnixFd::new(a);
+        let d = h.dup().expect("dup");
+        let dfd = d.get_raw_fd().unwrap();
+        drop(d);
+        if fd_open(dfd) || !fd_open(a) {
+            out.violation("dup-outlives", "dropping the duplicate first: the duplicate's descriptor must be closed and the source's open");
+        }
+        let d = h.dup().expect("dup");
+        let dfd = d.get_raw_fd().unwrap();
+        let c = h.clone();
+        let taken = h.take_raw_fd();
+        drop(c);
+        if taken != Some(a) || !fd_open(a) {
+            out.violation("dup-outlives", "a taken source descriptor was closed (or not handed out) while a duplicate lived");
+        }
+        drop(d);
+        if fd_open(dfd) || !fd_open(a) {
+            out.violation("dup-outlives", "after take: dropping the duplicate must close the duplicate only");
+        }
+        unsafe { libc::close(a) };
+        out.hit("dup_source_taken");
+    }
+    // (d) the last handle taken when it is the ONLY handle left (never cloned / every clone gone): not closed
+    {
+        let a = open_devnull();
+        let h = UnixFd::new(a);
+        let taken = h.take_raw_fd();
+        if taken != Some(a) || !fd_open(a) {
+            out.violation("dup-outlives", "take on the only handle: the descriptor that was handed out has been closed");
+        } else {
+            unsafe { libc::close(a) };
+        }
+        let a = open_devnull();
+        let h = UnixFd::new(a);
+        let c1 = h.clone();
+        let c2 = h.clone();
+        drop(c1);
+        drop(h);
+        let taken = c2.take_raw_fd();
+        if taken != Some(a) || !fd_open(a) {
+            out.violation("dup-outlives", "take on the last remaining clone: the descriptor that was handed out has been closed");
+        } else {
+            unsafe { libc::close(a) };
+        }
+        out.hit("take_on_only_handle");
+    }
+}
+
 pub fn run(cfg: &Cfg) {
     std::panic::set_hook(Box::new(|_| {}));
     let mut out = Out::new(&cfg.outdir);
@@ -1188,6 +1285,9 @@ pub fn run(cfg: &Cfg) {
         "real threads under a deterministic scheduler (verif_hooks callback blocks at every FdLoad / FdCompareExchange / FdInnerDrop / FdDup / FdClose point and at every operation start; one thread runs at a time); EVERY complete interleaving (stateless DFS, programs re-run from scratch per schedule) of: all unordered pairs of borrow-valid programs of <= {} operations over take/get/dup/clone/drop (each thread starts with one clone of the handle and drops what it still owns at its end) whose static interleaving estimate is <= {}, and all unordered triples of such programs of <= {} operation(s) with estimate <= {}; programs of <= 2 operations containing a REFUSED dup (EMFILE injected when the thread is released from its FdDup point) against all programs of <= 2 operations; all pairs of programs of <= 2 operations again with the shared descriptor having the NUMBER 0, and again with the kernel answering the close of the shared descriptor with EINTR (every close of the process goes through an interposed `close`); one case per complete schedule (request = programs + schedule, so distinct by construction); non-trivial = some thread was preempted inside an operation; plus free-running race rounds (2 and 3 unscheduled threads released through a spin barrier on clones of a handle wrapping a pipe end; take count, taken => still open, not taken => closed, judged from the kernel's view) as a search between the hook points",
         len2, cap2, len3, cap3
     );
+    for _ in 0..20 {
+        dup_outlives_source(&mut out);
+    }
     out.finish(&rule, complete);
     if !st.fatal {
         pool.quit();
